@@ -14,7 +14,7 @@ one() {
   tests="REPO-TESTS pass"
   (cd $W && export GOFLAGS=-mod=mod GOPROXY=off GOSUMDB=off GOTOOLCHAIN=local && go build ./... && go test -vet=off -count=1 ./... >/dev/null 2>&1) || tests="REPO-TESTS FAIL"
   caught=""; lines=""
-  for c in C01 C02 C03 C04 C05 C06 C07 C08 C09 C10 C11 C12 C13 C14 C15 C16 C17 C18 C19 C20; do
+  for c in ${CHECKS:-C01 C02 C03 C04 C05 C06 C07 C08 C09 C10 C11 C12 C13 C14 C15 C16 C17 C18 C19 C20}; do
     out=$(tools/altcheck.sh $W $c quick 2>&1)
     if echo "$out" | grep -q '^VIOLATION'; then
       caught="$caught $c"
@@ -24,7 +24,7 @@ one() {
   TAG=$(echo "$W" | md5sum | cut -c1-10)
   rm -rf /verif/out/alt/$TAG /verif/out/bin/vchk.$TAG /verif/out/bin/vchk-race.$TAG /verif/out/bin/vchk.$TAG.386 /verif/out/bin/vchk-race.$TAG.386
   git -C /repo worktree remove --force $W
-  { echo "$tests"; echo "CAUGHT-BY:${caught:- none}"; printf "%s" "$lines" | sort -u | head -20; } > $d/caught_by.txt
+  { echo "$tests"; echo "CAUGHT-BY:${caught:- none}"; printf "%s" "$lines" | sort -u | head -20; } > $d/${OUTNAME:-caught_by.txt}
   echo "$name: CAUGHT-BY:${caught:- none}"
 }
 export -f one
